@@ -28,6 +28,15 @@ Legs
      only, thorough: configs with <=1 deviation) every mixed assignment of representations to items, in every distinct order, from {absent, G4}, for the
      observe-relevant configs with <=1 deviation (thorough: 2 deviations with one item fewer); judged by the same
      observe oracle on the items' (id, score) content.  An item's score is its `score`; other fields are not the score.
+  F  the disk boundary: state.graph is written into the agent's snapshot every turn and restored by the boot hook
+     (load_latest_snapshot), so a history also contains "persist" steps and may START from a graph that came out of
+     a snapshot FILE.  G4 is written by the engine's own writer and the same GEL content is presented to the loader
+     in every on-disk shape the loader documents as accepted: edges as dict keyed by 'src→dst' in record order / by
+     the canonical key / by a legacy 'src__dst__rel' id, or as a list of records; the records listing their two
+     endpoints sorted / reversed / alternating; the section under `gel` or (legacy) `graph`.  Every restored graph is
+     judged (canonical key per unordered pair, one edge per pair, bounds preserved) and the distinct restored graphs
+     plus `absent` are the roots of a BFS over the operation alphabet + persist (write_snapshot, then
+     load_latest_snapshot into a fresh state) with the per-step oracles of leg B.
   C  closed gate x 4 ctx shapes (dict / ns.cfg / ns.config / both) x 4 stores, incl. "graph key absent".
   D  (cheap) one real orchestrator turn with graph.enabled=false (sub-gates on) over a pre-seeded
      state['graph'], and the same turn with the gate on (anti-vacuity).
@@ -368,14 +377,23 @@ def as_engine_items(items):
 
 
 # ------------------------------------------------------------------ oracles
-def check_keys(store, out, where):
-    """exactly one edge per unordered pair, stored under its canonical key (src<=dst, 'src→dst')."""
+def check_keys(store, out, where, strict: bool = True):
+    """exactly one edge per unordered pair, stored under its canonical key ('lo→hi' of the two endpoint ids in
+    string order).  strict: the record itself also lists its endpoints as src<=dst and carries its key as `id`
+    (every record gel.py creates does).  Not strict (graphs restored from a snapshot file, whose records may list
+    their endpoints in either order): only the KEY is judged - it has to be the canonical key of the unordered
+    pair the record joins - and an `id` field, when present, has to agree with the key."""
     seen = {}
     for k, rec in (store or {}).get("edges", {}).items():
+        rec = rec if isinstance(rec, dict) else {}
         s, d = str(rec.get("src")), str(rec.get("dst"))
-        if not (s <= d) or k != "%s%s%s" % (s, ARROW, d) or rec.get("id") != k:
-            out.append(("keys:noncanonical", "%s: edge stored under %r has src=%r dst=%r id=%r" % (where, k, s, d, rec.get("id"))))
         pair = (min(s, d), max(s, d))
+        if strict:
+            bad = not (s <= d) or k != "%s%s%s" % (s, ARROW, d) or rec.get("id") != k
+        else:
+            bad = k != "%s%s%s" % (pair[0], ARROW, pair[1]) or rec.get("id", k) != k
+        if bad:
+            out.append(("keys:noncanonical", "%s: edge stored under %r has src=%r dst=%r id=%r" % (where, k, s, d, rec.get("id"))))
         if pair in seen:
             out.append(("keys:duplicate-unordered-pair", "%s: edges %r and %r both join %r" % (where, seen[pair], k, pair)))
         seen[pair] = k
@@ -554,6 +572,225 @@ def check_promote(c: Cfg, pre, post, exempt, out):
     return n_att
 
 
+def check_restored(c: Cfg, pre, post, exempt, out, how):
+    """a graph that crossed the disk boundary (snapshot written / snapshot file loaded): the bounds invariant is
+    preserved - when every (non promotion-written) weight was inside the clamp interval before, every restored one
+    is (the snapshot's own rounding to 6 decimals and its [-1,1] clamp cannot leave an interval whose finite bounds
+    have <=6 decimals).  What else the restore keeps (weights, nodes, annotations) is not part of this property."""
+    pre_ok = all(c.inb(wt(r)) for k, r in pre["edges"].items() if k not in exempt)
+    nbad = 0
+    if pre_ok:
+        for k in sorted(post["edges"]):
+            w = wt(post["edges"][k])
+            if k not in exempt and not c.inb(w):
+                nbad += 1
+                out.append(("snapshot:weight-outside-clamp",
+                            "%s left %s with weight %r outside [%s,%s]" % (how, k, w, c.lo, c.hi)))
+    return nbad
+
+
+# ------------------------------------------------------------------ the disk boundary (leg F)
+# state.graph does not live in one process for ever: apply writes it into the agent's snapshot file every turn and the
+# orchestrator's boot hook restores it with load_latest_snapshot.  The loader is documented as tolerant: the GEL
+# section may sit under `gel` or (legacy) `graph`, its edges may be a dict keyed by any id or a list of
+# {src,dst,rel,weight} records, and nothing says in which order a record lists its two endpoints.
+DISK_CONTAINERS = ["dict:record-order-key", "dict:canonical-key", "dict:legacy-id", "list"]
+DISK_ORDERS = ["sorted", "reversed", "alternating"]
+DISK_SECTIONS = ["gel", "graph"]
+DISK_SHAPES = [(co, o, se) for co in DISK_CONTAINERS for o in DISK_ORDERS for se in DISK_SECTIONS]
+
+
+def foreign_payload(base: dict, shape):
+    """the snapshot the engine itself wrote (base), with the SAME GEL content presented in another on-disk shape"""
+    container, order, section = shape
+    payload = json.loads(json.dumps(base))
+    gel_in = payload.get("gel")
+    if not isinstance(gel_in, dict) or not isinstance(gel_in.get("edges"), dict):
+        raise EngineRaised("write_snapshot produced no gel.edges mapping: %s" % json.dumps(gel_in)[:160])
+    recs = []
+    for n, k in enumerate(sorted(gel_in["edges"])):
+        rec = gel_in["edges"][k]
+        r = {f: rec.get(f) for f in ("src", "dst", "rel", "weight", "updated_at", "attrs")}
+        lo, hi = sorted([str(rec.get("src")), str(rec.get("dst"))])
+        flip = order == "reversed" or (order == "alternating" and n % 2 == 0)
+        r["src"], r["dst"] = (hi, lo) if flip else (lo, hi)
+        recs.append(r)
+    if container == "list":
+        edges = recs
+    else:
+        edges = {}
+        for r in recs:
+            if container == "dict:record-order-key":
+                k = "%s%s%s" % (r["src"], ARROW, r["dst"])
+            elif container == "dict:canonical-key":
+                k = "%s%s%s" % (min(r["src"], r["dst"]), ARROW, max(r["src"], r["dst"]))
+            elif container == "dict:legacy-id":
+                k = "%s__%s__%s" % (r["src"], r["dst"], r["rel"])
+            else:
+                raise HarnessError("unknown container %r" % (container,))
+            edges[k] = dict(r, id=k)
+    gel_out = dict(gel_in, edges=edges)
+    if section == "graph":
+        payload.pop("gel", None)
+        payload["graph"] = gel_out
+    elif section == "gel":
+        payload["gel"] = gel_out
+    else:
+        raise HarnessError("unknown section %r" % (section,))
+    return payload, sum(1 for r in recs if r["src"] > r["dst"])
+
+
+class Disk:
+    """one scratch snapshot directory and a ctx that points the engine's snapshot writer / loader at it"""
+
+    def __init__(self, c: Cfg, root: str):
+        from clematis.engine import snapshot as _snap
+        self.snap = _snap
+        self.dir = root
+        os.makedirs(root, exist_ok=True)
+        full = dict(c.full)
+        full["t4"] = dict(full.get("t4") or {}, snapshot_dir=root)
+        self.ctx = types.SimpleNamespace(cfg=full, config=full, agent_id="A", turn_id=TURN)
+        self.path = os.path.join(root, "state_A.json")
+
+    def _clear(self):
+        for n in os.listdir(self.dir):
+            os.unlink(os.path.join(self.dir, n))
+
+    def write(self, store_json: str):
+        """the engine writes the agent's snapshot of this graph; returns the path it reports"""
+        self._clear()
+        return engine(self.snap.write_snapshot, self.ctx, mk_state(store_json), "1", 0, [])
+
+    def written_payload(self, store_json: str):
+        """the JSON body of the snapshot the engine writes for this graph (None: not a single JSON object - the
+        envelope for the foreign shapes is then missing, which is the snapshot format's business, not C18's)"""
+        path = self.write(store_json)
+        try:
+            with open(path, "r", encoding="utf-8") as f:
+                body = json.load(f)
+            return body if isinstance(body, dict) else None
+        except Exception:
+            return None
+
+    def load(self):
+        """a fresh process state restores from the snapshot directory (what the boot hook does)"""
+        fresh = types.SimpleNamespace()
+        engine(self.snap.load_latest_snapshot, self.ctx, fresh)
+        return getattr(fresh, "graph", None)
+
+    def roundtrip(self, store_json: str):
+        self.write(store_json)
+        return self.load()
+
+    def load_foreign(self, payload: dict):
+        self._clear()
+        with open(self.path, "w", encoding="utf-8") as f:
+            json.dump(payload, f)
+        return self.load()
+
+
+def disk_roots(c: Cfg, disk: Disk, st: Stats = None, shapes=None):
+    """the initial graph G4 restored from a snapshot file in every on-disk shape.  Yields
+    (shape, violations, store_json | None)."""
+    s0 = initial_store("G4", c)
+    if s0 is None:
+        return
+    pre = norm_store(s0)
+    try:
+        base = disk.written_payload(dump(s0))
+    except EngineRaised as e:
+        yield None, [("persist:raises", "write_snapshot of the initial graph under a validator-accepted config raised %s" % e)], None
+        return
+    if base is None:
+        if st is not None:
+            st.add("disk_envelope_unreadable")
+        return
+    for shape in (shapes if shapes is not None else DISK_SHAPES):
+        out = []
+        try:
+            payload, nflip = foreign_payload(base, shape)
+            g = disk.load_foreign(payload)
+        except EngineRaised as e:
+            if st is not None:
+                st.add("transitions")
+                st.add("validated")
+            yield shape, [("load:raises", "load_latest_snapshot of a %s snapshot raised %s" % ("/".join(shape), e))], None
+            continue
+        if st is not None:
+            st.add("transitions")
+            st.add("validated")
+            st.add("disk_loads")
+        post = norm_store(g)
+        how = "load of a snapshot with %s edges, %s endpoints, section `%s`" % shape
+        check_restored(c, pre, post, set(), out, how)
+        check_keys(post, out, "after " + how, strict=False)
+        if st is not None:
+            st.distinct("outcomes", ["load", min(len(post["edges"]), 4), nflip > 0] + [v[0] for v in out[:1]])
+            if post["edges"] and nflip:
+                st.add("disk_loads_restoring_flipped_records")
+        yield shape, out, dump(post)
+
+
+def bfs_disk(c: Cfg, depth: int, ops, st: Stats, disk: Disk):
+    """leg F: histories over ops + persist from {absent} + {G4 as restored from every on-disk shape}"""
+    devs = _jsonable_devs(c.devs)
+    seen = set()
+    frontier = []
+
+    def root(shape, sj):
+        key = h64([sj, []])
+        if key in seen:
+            return
+        seen.add(key)
+        st.distinct("states", [devs, sj, []])
+        frontier.append(({"kind": "disk", "devs": devs, "shape": list(shape) if shape else None}, [], sj, frozenset()))
+
+    root(None, "null")
+    for shape, viol, sj in disk_roots(c, disk, st):
+        case = {"kind": "disk", "devs": devs, "shape": list(shape) if shape else None, "history": []}
+        for sig, what in viol:
+            st.violation(sig, what, case)
+        if sj is not None:
+            root(shape, sj)
+    st.notes["disk_distinct_restored_graphs_max"] = max(st.notes.get("disk_distinct_restored_graphs_max", 0), len(frontier) - 1)
+    for d in range(depth):
+        nxt = []
+        for base_case, hist, sj, ex in frontier:
+            for op in ops:
+                viol, nj, nex, oc, nontrivial = step(c, sj, set(ex), op, st, True, disk, False)
+                h2 = hist + [op]
+                for sig, what in viol:
+                    st.violation(sig, what, dict(base_case, history=h2))
+                st.distinct("outcomes", list(oc) + ([v[0] for v in viol[:1]]))
+                if nontrivial:
+                    st.distinct("nontrivial", [devs, "disk", sj, sorted(ex), op])
+                key = h64([nj, sorted(nex)])
+                if key not in seen:
+                    seen.add(key)
+                    st.distinct("states", [devs, nj, sorted(nex)])
+                    nxt.append((base_case, h2, nj, frozenset(nex)))
+        frontier = nxt
+        if not frontier:
+            break
+    return len(seen)
+
+
+def _disk_worker(chunk, st: Stats, scratch):
+    ops = ops_alphabet(False) + [["persist"]]
+    root = os.path.join(scratch, "disk-%d" % os.getpid())
+    for devs, depth in chunk:
+        c = Cfg(devs)
+        if not c.accepted:
+            raise HarnessError("rejected config reached the worker")
+        n = bfs_disk(c, depth, ops, st, Disk(c, root))
+        st.notes["disk_max_states_per_config"] = max(st.notes.get("disk_max_states_per_config", 0), n)
+        st.notes["disk_depth_bound"] = max(st.notes.get("disk_depth_bound", 0), depth)
+        if devs == {"mode": "proportional"}:
+            st.sample({"kind": "disk", "devs": _jsonable_devs(devs), "shape": ["list", "reversed", "gel"],
+                       "history": [ops[1], ["persist"], ["tick", 1]]})
+
+
 # ------------------------------------------------------------------ executing one operation on the real code
 def run_pass(ctx, c: Cfg, state, kind, promos_out=None):
     """the maintenance passes exactly as orchestrator/core.py strings them together"""
@@ -578,12 +815,13 @@ def run_pass(ctx, c: Cfg, state, kind, promos_out=None):
     raise HarnessError("unknown pass %r" % kind)
 
 
-def step(c: Cfg, store_json: str, exempt: set, op, st: Stats = None, all_perms: bool = True):
+def step(c: Cfg, store_json: str, exempt: set, op, st: Stats = None, all_perms: bool = True, disk=None, strict: bool = True):
     """Execute one operation from the state encoded by store_json on fresh objects.
     Returns (violations, next_store_json, next_exempt, outcome_class, nontrivial).  An exception raised by the
-    GEL function itself is a reported outcome (<op>:raises; the state is not advanced)."""
+    GEL function itself is a reported outcome (<op>:raises; the state is not advanced).  disk: the Disk the
+    `persist` operation writes to / restores from; strict: see check_keys."""
     try:
-        return _step(c, store_json, exempt, op, st, all_perms)
+        return _step(c, store_json, exempt, op, st, all_perms, disk, strict)
     except EngineRaised as e:
         if st is not None:
             st.add("transitions")
@@ -592,7 +830,7 @@ def step(c: Cfg, store_json: str, exempt: set, op, st: Stats = None, all_perms: 
         return [("%s:raises" % op[0], what)], store_json, set(exempt), (op[0], "raises"), False
 
 
-def _step(c: Cfg, store_json: str, exempt: set, op, st: Stats = None, all_perms: bool = True):
+def _step(c: Cfg, store_json: str, exempt: set, op, st: Stats = None, all_perms: bool = True, disk=None, strict: bool = True):
     out = []
     exempt = set(exempt)
     pre = norm_store(json.loads(store_json))
@@ -611,7 +849,7 @@ def _step(c: Cfg, store_json: str, exempt: set, op, st: Stats = None, all_perms:
             ex = set(exempt)
             sub = []
             nchg, ntop = check_observe(c, pre, post, perm, m, ex, sub)
-            check_keys(post, sub, "after observe")
+            check_keys(post, sub, "after observe", strict)
             if st is not None:
                 st.add("validated")
             out.extend(sub)
@@ -632,7 +870,7 @@ def _step(c: Cfg, store_json: str, exempt: set, op, st: Stats = None, all_perms:
             st.add("validated")
         post = norm_store(store_of(state), copy=False)
         nrem, ndec = check_tick(c, pre, post, dt, m, exempt, out)
-        check_keys(post, out, "after tick")
+        check_keys(post, out, "after tick", strict)
         oc = ("tick", min(nrem, 2), min(ndec, 2))
         nontrivial = (nrem + ndec) > 0
     elif kind in ("merge", "split"):
@@ -642,7 +880,7 @@ def _step(c: Cfg, store_json: str, exempt: set, op, st: Stats = None, all_perms:
             st.add("validated")
         post = norm_store(store_of(state), copy=False)
         napp = check_annotate_only(kind, pre, post, out)
-        check_keys(post, out, "after " + kind)
+        check_keys(post, out, "after " + kind, strict)
         oc = (kind, min(napp, 2))
         nontrivial = napp > 0
         if st is not None and napp > 0:
@@ -655,7 +893,7 @@ def _step(c: Cfg, store_json: str, exempt: set, op, st: Stats = None, all_perms:
             st.add("validated")
         post = norm_store(store_of(state))
         natt = check_promote(c, pre, post, exempt, out)
-        check_keys(post, out, "after promote")
+        check_keys(post, out, "after promote", strict)
         # idempotence: applying the same promotions again changes nothing
         for p in promos:
             engine(gel.apply_promotion, c.ctx, state, json.loads(json.dumps(p)))
@@ -669,6 +907,19 @@ def _step(c: Cfg, store_json: str, exempt: set, op, st: Stats = None, all_perms:
         nontrivial = natt > 0
         if st is not None and natt > 0:
             st.add("promote_applied")
+    elif kind == "persist":
+        if disk is None:
+            raise HarnessError("persist operation without a Disk")
+        g = disk.roundtrip(store_json)
+        if st is not None:
+            st.add("transitions")
+            st.add("validated")
+            st.add("persist_roundtrips")
+        post = norm_store(g)
+        nbad = check_restored(c, pre, post, exempt, out, "snapshot write + load")
+        check_keys(post, out, "after snapshot write + load", strict)
+        oc = ("persist", min(len(post["edges"]), 2), len(post["edges"]) == len(pre["edges"]))
+        nontrivial = len(post["edges"]) > 0
     else:
         raise HarnessError("unknown op %r" % (op,))
     nxt = dump(post) if (store_json != "null" or dump(post) != dump(norm_store(None))) else "null"
@@ -1056,6 +1307,15 @@ def run(run: Run) -> None:
     run.pmap(_shape_worker, shp_items, extra=(n_e,), chunks=len(shp_items))
     run.notes["wall_leg_E_s"] = round(_time.time() - _t, 1)
     _t = _time.time()
+    # leg F: the disk boundary.  quick: default config depth 3, 1 deviation depth 2, 2 deviations depth 1 (every
+    # restored graph + one operation).  thorough: default depth 4, 1 deviation depth 3, 2 deviations depth 2.
+    dd = (4, 3, 2) if thorough else (3, 2, 1)
+    disk_items = [(d, dd[len(d)]) for i, d in enumerate(accepted) if "G4" in inits[i]]
+    run.notes["disk_shapes"] = len(DISK_SHAPES)
+    run.notes["disk_leg_configs"] = len(disk_items)
+    run.pmap(_disk_worker, disk_items, extra=(run.scratch,), chunks=len(disk_items))
+    run.notes["wall_leg_F_s"] = round(_time.time() - _t, 1)
+    _t = _time.time()
     # leg C
     run.pmap(_gate_worker, accepted, extra=(thorough,))
     run.notes["wall_leg_C_s"] = round(_time.time() - _t, 1)
@@ -1090,12 +1350,18 @@ def run(run: Run) -> None:
                 "{a,b,c}x{NaN,0,.1,.2,.5,.9,1} with the items presented in every homogeneous representation of {%s} and, for <=2 "
                 "items%s, every mixed assignment of representations ('+' = carrier with owner/text and the score-like fields %s set "
                 "to the decoy 1-score), every distinct order, from {absent,G4}, same observe oracle on the (id, score) content.  "
+                "F (disk boundary): G4 written by the engine's own snapshot writer and presented to load_latest_snapshot in every "
+                "on-disk shape of {%s} edges x {%s} endpoint order of the records x section {%s} (%d shapes), each restored graph "
+                "judged (canonical key per unordered pair, bounds preserved) and, with `absent`, taken as a root of a BFS to depth %s "
+                "over the same operations + persist (write_snapshot then load_latest_snapshot into a fresh state).  "
                 "C: closed gate x 4 ctx shapes x 4 stores. "
                 "non-trivial = the step changed the graph (observe: and >1 order was run)" % (
                     len(DIMS), run.notes["special_values_enumerated"], run.notes["bfs_depth_bound"], run.notes["ops_per_state"], max_len,
                     n_e, "observe-relevant configs with <=1 deviation; one item fewer for 2-deviation configs" if thorough
                     else "observe-relevant configs with <=1 deviation", ", ".join(SHAPES),
-                    " under configs with <=1 deviation" if thorough else " under the default config", "/".join(SCORE_ALIASES)))
+                    " under configs with <=1 deviation" if thorough else " under the default config", "/".join(SCORE_ALIASES),
+                    ", ".join(DISK_CONTAINERS), ", ".join(DISK_ORDERS), ", ".join(DISK_SECTIONS), len(DISK_SHAPES),
+                    "%d (default config) / %d (1 deviation) / %d (2 deviations)" % dd))
     run.assume("item ids are plain strings without the key separator '→' (ids containing it can make two unordered pairs collide on one key; not in the alphabet)")
     run.assume("an item's score is the value of its `score` field / second tuple element; items are tuples, dicts with 'id' and "
                "'score', or objects with .id and .score (docstring: 'each item should carry (id, score)'); any further field of a "
@@ -1103,6 +1369,13 @@ def run(run: Run) -> None:
                "only), other id field names, list-shaped items and score=None are not in the alphabet (the statement is silent)")
     run.assume("legs A/B/C present items as (id, score) tuples; the representation only matters to the stateless item adapter, so "
                "leg E varies it on single observe steps from {absent, G4}, not inside histories")
+    run.assume("leg F: a snapshot file's edge records carry src, dst, rel, weight (+ updated_at, attrs) with the weights of G4 (inside "
+               "the clamp interval, <=6 decimals); records with a missing endpoint, two records for one unordered pair, ids "
+               "containing '__' or '→', delta / compressed snapshot files and dict-shaped process states are not in the alphabet.  Of a "
+               "restored graph only this property's invariants are judged (one edge per unordered pair under the canonical key of "
+               "that pair - the order in which the RECORD lists src/dst is not judged there -, bounds preserved); what a restore "
+               "keeps otherwise (weights, nodes, annotations) belongs to the snapshot properties.  The closed gate is not re-run "
+               "on the leg-F states")
     run.assume("decay_dt >= 0 (tick is only ever called with 1 by the orchestrator)")
     run.assume("edges last written by a promotion pass are exempt from the update clamp until observed again (promotion clamps to [-1,1] by its own documented rule)")
     run.assume("the additive/proportional increment itself, and WHICH pairs survive a binding pair cap, are not part of the statement and are not checked (only: within clamp, <= cap, among the eligible items, order-insensitive)")
@@ -1148,10 +1421,43 @@ def _replay_history(case):
     return out
 
 
+def _replay_disk(case):
+    import shutil
+    import tempfile
+    c = Cfg(_devs_from_json(case["devs"]))
+    if not c.accepted:
+        return []
+    if c.unreadable is not None:
+        return [("config:accepted-parameter-not-a-number", c.unreadable)]
+    d = tempfile.mkdtemp(prefix="c18r", dir="/dev/shm" if os.path.isdir("/dev/shm") else None)
+    try:
+        disk = Disk(c, os.path.join(d, "snaps"))
+        out = []
+        sj = "null"
+        if case.get("shape"):
+            sj = None
+            for shape, viol, j in disk_roots(c, disk, None, [tuple(case["shape"])]):
+                out.extend(viol)
+                sj = j
+            if sj is None:
+                return out
+        ex = set()
+        for op in case.get("history") or []:
+            viol, sj, ex, oc, _ = step(c, sj, ex, op, None, True, disk, False)
+            out.extend(viol)
+            if tuple(oc[1:]) == ("raises",):
+                break
+        return out
+    finally:
+        shutil.rmtree(d, ignore_errors=True)
+
+
 def replay(case):
     kind = case.get("kind")
     if kind in ("history", "gate_off"):
         res = _replay_history(case)
+    elif kind == "disk":
+        res = _replay_disk(case)
     elif kind == "gate_off_shapes":
         c = Cfg(_devs_from_json(case["devs"]))
         res = check_gate_off(c, dump(case["store"]), ops_alphabet(False), None, off_contexts(c))
